@@ -205,15 +205,20 @@ static void add_attr(const char *attr_name, enum xcm_attr_type type,
 	return;
 
     struct ctl_proto_get_all_attr_cfm *cfm = data;
+
+    /* what does not fit the reply is left out (a query for such an
+       attribute alone fails with EOVERFLOW) */
+    if (cfm->attrs_len == CTL_PROTO_MAX_ATTRS ||
+	len > CTL_ATTR_VALUE_MAX || strlen(attr_name) >= XCM_ATTR_NAME_MAX)
+	return;
+
     struct ctl_proto_attr *attr = &cfm->attrs[cfm->attrs_len];
 
     cfm->attrs_len++;
-    ut_assert(cfm->attrs_len < CTL_PROTO_MAX_ATTRS);
 
     strcpy(attr->name, attr_name);
     attr->value_type = type;
 
-    ut_assert(attr->value_len < sizeof(attr->any_value));
     memcpy(attr->any_value, value, len);
     attr->value_len = len;
 }
@@ -225,6 +230,7 @@ static void process_get_all_attr(struct xcm_socket *socket,
 
     struct ctl_proto_get_all_attr_cfm *cfm = &response->get_all_attr_cfm;
 
+    response->type = ctl_proto_type_get_all_attr_cfm;
     cfm->attrs_len = 0;
 
     xcm_attr_get_all(socket, add_attr, cfm);
